@@ -4,7 +4,7 @@ The bundled extensions are the entry points of the installed metadata (`markdown
 markdown.extensions, restricted to values in the `markdown.extensions.` package: 18).  Option names and defaults are read
 from `cls().config` after instantiation.  Per case one extension E and one of these checks (a case = one check):
 
- forms (55 %)   a random option set O for E (semantic values from gen/docs.ext_opts plus generic values by default type)
+ forms (45 %)   a random option set O for E (semantic values from gen/docs.ext_opts plus generic values by default type)
                 and a document exercising E (1-3 pieces of E's syntax + 0-3 general pieces):
                     markdown(doc, extensions=[f], extension_configs={f: O})  for f in  'E', 'markdown.extensions.E',
                     'markdown.extensions.E:Cls'   and   markdown(doc, extensions=[Cls(**O)])
@@ -15,9 +15,19 @@ from `cls().config` after instantiation.  Per case one extension E and one of th
                 spelling ('true','True','YES','y','on','1' / 'false','No','n','off','0','none'; 'none'/'None' -> None for
                 a None default) behaves like the bool itself in every naming form; a non-boolean string ('maybe')
                 raises ValueError in every form.
+                The options checked are those whose default is a bool/None AND every option the extension's code hands to
+                parseBoolValue (found by scanning the extension's source, plus a documented list: toc `permalink` is "True/False
+                or the link text"): for these "boolean or text" options both true-like and false-like strings must behave
+                like the real booleans (a non-boolean string is text there, not an error).
+ multi (15 %)   2-4 different configured extensions, all named by strings (random naming forms) in ONE `extensions=[...]` list in
+                a random order - `extra` is in the list in 60 % of the cases, half of those in front of the others - must
+                behave like the same list of class instances `Cls(**options)` in the same order; like the list with `extra`
+                replaced in place by its components (options of `extra` passed per component); and, when no two of the
+                extensions register under the same name or at tied priorities in a registry (computed from the registries),
+                like any other order of the same list.
  unknown (12 %) an unknown option key raises KeyError in all four forms for every extension except codehilite and extra,
                 for which all four forms must accept it and agree.
- extra (18 %)   extensions=['extra'] with extension_configs={'extra': {component: O_c, ...}} (any naming form of extra)
+ extra (13 %)   extensions=['extra'] with extension_configs={'extra': {component: O_c, ...}} (any naming form of extra)
                 == extensions=[all of markdown.extensions.extra.extensions] with extension_configs={component: O_c, ...},
                 on documents mixing the components' syntax.
 
@@ -25,7 +35,7 @@ distinct = number of different (extension, check, option set, document) evaluate
 dist['option_sensitive'] counts form cases in which the options changed the output (a naming form that dropped its
 options would be seen there).
 """
-import copy, importlib
+import copy, importlib, re
 from gen import docs as D
 
 NEEDS_DRIVER = False
@@ -50,6 +60,31 @@ def bundled():
 
 def option_defaults(cls):
     return {k: v[0] for k, v in cls().config.items()}
+
+
+# options documented as "True/False or <something else>" although their default is not a bool (docs/extensions/*.md)
+DOCUMENTED_BOOLISH = {'toc': ['permalink']}
+_PBV = re.compile(r'parseBoolValue\(((?:[^()]|\([^()]*\))*)\)')
+
+
+def boolish_options(B, defaults):
+    """[(extension, option, default, strict)]: options with a bool/None default (strict: a non-boolean string is an error) and
+    options the extension's own code passes through parseBoolValue or documents as boolean-or-text (not strict)."""
+    import inspect
+    out = []
+    for e in sorted(B):
+        keys = defaults[e]
+        named = set(DOCUMENTED_BOOLISH.get(e, []))
+        try:
+            src = inspect.getsource(importlib.import_module(B[e][0]))
+            for call in _PBV.findall(src):
+                named.update(re.findall(r"""['"](\w+)['"]""", call))
+        except Exception:
+            pass
+        for k, dv in keys.items():
+            if isinstance(dv, bool) or dv is None: out.append((e, k, dv, True))
+            elif k in named: out.append((e, k, dv, False))
+    return out
 
 
 # ---- documents exercising one extension ------------------------------------------------------------------------------
@@ -189,7 +224,7 @@ def run_forms(B, name, opts, doc, others=()):
 def check_case(case):
     """-> None or (observed, required) strings"""
     B = bundled(); name = case['ext']; kind = case['check']; doc = case['doc']
-    mod, clsname, cls = B[name]
+    mod, clsname, cls = B[name] if name in B else (None, None, None)
     if kind == 'forms':
         problems = []
         if mod != 'markdown.extensions.' + name: problems.append('entry point %s points to module %s' % (name, mod))
@@ -206,6 +241,8 @@ def check_case(case):
         ref = run_forms(B, name, {k: b}, doc)
         got = run_forms(B, name, {k: s}, doc)
         case['_ref'] = ref['instance']
+        if case.get('bad') and not case.get('strict', True):
+            return None if len(set(got.values())) == 1 else (repr({f: (v[0], v[1][:200]) for f, v in got.items()}), 'the same conversion in every naming form (the string is text for this option)')
         if case.get('bad'):
             if any(v != ('exc', 'ValueError') for v in got.values()):
                 return (repr({f: (v[0], v[1][:200]) for f, v in got.items()}), 'ValueError for the non-boolean string %r given to the boolean option %s in every form' % (s, k))
@@ -234,7 +271,69 @@ def check_case(case):
         if sorted(comps) != sorted(['fenced_code', 'footnotes', 'attr_list', 'def_list', 'tables', 'abbr', 'md_in_html']):
             return ('extra lists %r' % comps, 'the documented components')
         return None
+    if kind == 'multi':
+        import markdown.extensions.extra as X
+        items = case['items']     # [[name, form, opts], ...] in list order
+        names = [it[0] for it in items]
+
+        def strings(its):
+            fs = [form_names(n, *B[n][:2])[f] for n, f, o in its]
+            return convert(doc, fs, {fn: o for fn, (n, f, o) in zip(fs, its) if o})
+
+        a = strings(items)
+        try:
+            insts = [B[n][2](**copy.deepcopy(o)) for n, f, o in items]
+            b = convert(doc, insts, {})
+        except Exception as e:
+            b = ('exc', type(e).__name__)
+        case['_ref'] = b
+        if a != b:
+            return ('named by strings %r: (%s) %s' % ([(n, f) for n, f, o in items], a[0], a[1][:1200]), 'as class instances in the same order: (%s) %s' % (b[0], b[1][:1200]))
+        comps = list(X.extensions)
+        if 'extra' in names and not (set(names) & set(comps)):
+            i = names.index('extra'); eo = items[i][2]
+            expanded = items[:i] + [[c, 'short', eo.get(c, {})] for c in comps] + items[i + 1:]
+            c = strings(expanded)
+            if c != a:
+                return ('with extra: (%s) %s' % (a[0], a[1][:1200]), 'with extra replaced by its components %r: (%s) %s' % (comps, c[0], c[1][:1200]))
+        if case.get('perm') and order_free(names):
+            d = strings([items[j] for j in case['perm']])
+            if d != a:
+                return ('order %r: (%s) %s' % (names, a[0], a[1][:1200]), 'order %r: (%s) %s' % ([names[j] for j in case['perm']], d[0], d[1][:1200]))
+        return None
     raise ValueError(kind)
+
+
+_SIG = {}
+
+
+def _reg_sig(name):
+    """what loading the extension registers or replaces: {(registry, item name): priority}"""
+    import markdown
+    def sig(exts):
+        md = markdown.Markdown(extensions=exts); out = {}
+        for rn, reg in (('pre', md.preprocessors), ('block', md.parser.blockprocessors), ('inline', md.inlinePatterns), ('tree', md.treeprocessors), ('post', md.postprocessors)):
+            for p_ in reg._priority: out[(rn, p_.name)] = (p_.priority, type(reg._data[p_.name]).__name__)
+        return out
+    if name not in _SIG:
+        if '' not in _SIG: _SIG[''] = sig([])
+        _SIG[name] = {k: v[0] for k, v in sig([name]).items() if _SIG[''].get(k) != v}
+    return _SIG[name]
+
+
+def order_free(names):
+    """no two of the extensions register under the same name or at the same priority in one registry (then the order of loading
+    cannot matter); computed from the registries, False when that cannot be determined"""
+    try:
+        sigs = [_reg_sig(n) for n in names]
+    except Exception:
+        return False
+    for i in range(len(sigs)):
+        for j in range(i + 1, len(sigs)):
+            for (ra, na), pa in sigs[i].items():
+                for (rb, nb), pb in sigs[j].items():
+                    if ra == rb and (na == nb or pa == pb): return False
+    return True
 
 
 def replay(witness):
@@ -249,14 +348,14 @@ def search(driver, rng, n):
     B = bundled()
     names = sorted(B)
     defaults = {k: option_defaults(B[k][2]) for k in names}
-    boolopts = [(e, k, dv) for e in names for k, dv in defaults[e].items() if isinstance(dv, bool) or dv is None]
+    boolopts = boolish_options(B, defaults)
     dist = {'extensions': len(names), 'checks': {}, 'per_ext': {}, 'option_sensitive': 0, 'forms_with_options': 0, 'exceptions': {}, 'empty_ref': 0, 'bool_options': len(boolopts)}
     viol = []; samples = []; seen = set(); cases = 0
     if len(names) != 18:
         viol.append({'input': {'names': names}, 'config': {}, 'observed': '%d bundled entry points: %r' % (len(names), names), 'required': 'the 18 bundled extensions are registered as entry points', 'finding': None})
     while cases < n:
         r = rng.random()
-        kind = 'forms' if r < 0.55 else 'boolstr' if r < 0.70 else 'unknown' if r < 0.82 else 'extra'
+        kind = 'forms' if r < 0.45 else 'boolstr' if r < 0.60 else 'unknown' if r < 0.72 else 'multi' if r < 0.87 else 'extra'
         if kind == 'forms':
             e = names[cases % len(names)] if rng.random() < 0.5 else rng.choice(names)   # every extension regularly
             opts = option_set(rng, e, defaults[e]) if rng.random() < 0.85 else {}
@@ -264,14 +363,15 @@ def search(driver, rng, n):
             others = rng.sample([x for x in names if x != e], rng.choice([0, 0, 0, 1, 3]))
             case = {'ext': e, 'check': kind, 'opts': _jsonable(opts), 'doc': exercise_doc(rng, e, dist['per_ext']), 'others': others}
         elif kind == 'boolstr':
-            e, k, dv = rng.choice(boolopts)
+            e, k, dv, strict = rng.choice(boolopts + [x for x in boolopts if not x[3]] * 3)   # boolean-or-text options are few: weight them
             bad = rng.random() < 0.15
             if bad: b, s = True, rng.choice(BAD_S)
             elif dv is None and rng.random() < 0.34: b, s = None, rng.choice(['none', 'None', 'NONE'])
             else:
                 b = rng.random() < 0.5
                 s = rng.choice(TRUE_S if b else FALSE_S + (['none', 'None'] if dv is not None else []))
-            case = {'ext': e, 'check': kind, 'key': k, 'value': b, 'spelling': s, 'bad': bad, 'doc': exercise_doc(rng, e, dist['per_ext'])}
+            case = {'ext': e, 'check': kind, 'key': k, 'value': b, 'spelling': s, 'bad': bad, 'strict': strict, 'doc': exercise_doc(rng, e, dist['per_ext'])}
+            if not strict: dist['boolish_text_options'] = dist.get('boolish_text_options', 0) + 1
         elif kind == 'unknown':
             e = rng.choice(names)
             opts = {rng.choice(['no_such_option', 'Permalink', 'glossary_', 'x', 'linenos', 'toc'] if e != 'toc' else ['no_such_option', 'Permalink', 'x']): rng.choice([1, 'v', True, None])}
@@ -279,6 +379,22 @@ def search(driver, rng, n):
             opts = {k: v for k, v in opts.items() if k not in defaults[e] or len(opts) > 1}
             if not any(k not in defaults[e] for k in opts): opts['no_such_option'] = 1
             case = {'ext': e, 'check': kind, 'opts': opts, 'doc': exercise_doc(rng, e, dist['per_ext'])}
+        elif kind == 'multi':
+            m = rng.choice([2, 2, 3, 4])
+            with_extra = rng.random() < 0.6
+            pool = [x for x in names if x != 'extra' and not (with_extra and x in EXTRA_COMPS and rng.random() < 0.7)]
+            chosen = rng.sample(pool, m - 1 if with_extra else m)
+            rng.shuffle(chosen)
+            if with_extra: chosen.insert(0 if rng.random() < 0.5 else rng.randint(0, len(chosen)), 'extra')
+            items = []
+            for x in chosen:
+                o = extra_configs(rng, EXTRA_COMPS, defaults) if x == 'extra' else (option_set(rng, x, defaults[x]) if rng.random() < 0.85 else {})
+                items.append([x, rng.choice(['short', 'short', 'dotted', 'class']), _jsonable_nested(o) if x == 'extra' else _jsonable(o)])
+            perm = list(range(len(items))); rng.shuffle(perm)
+            doc = '\n\n'.join(exercise_doc(rng, x, dist['per_ext']) for x in chosen if x != 'meta')
+            if 'meta' in chosen: doc = D.p_meta(rng) + '\n\n' + doc
+            case = {'ext': 'multi', 'check': kind, 'items': items, 'perm': perm if perm != sorted(perm) else None, 'doc': doc or D.p_para(rng)}
+            if with_extra and chosen[0] == 'extra': dist['multi_extra_first'] = dist.get('multi_extra_first', 0) + 1
         else:
             opts = extra_configs(rng, EXTRA_COMPS, defaults)
             case = {'ext': 'extra', 'check': kind, 'opts': _jsonable_nested(opts), 'form': rng.choice(['short', 'dotted', 'class', 'instance']), 'doc': exercise_doc(rng, 'extra', dist['per_ext'])}
@@ -291,13 +407,13 @@ def search(driver, rng, n):
         ref = case.pop('_ref', None); dflt = case.pop('_default', None)
         if ref is not None:
             if ref[0] == 'exc': dist['exceptions'][ref[1]] = dist['exceptions'].get(ref[1], 0) + 1
-            elif ref[1]: seen.add((case['ext'], kind, repr(case.get('opts', case.get('spelling'))), case['doc']))
+            elif ref[1]: seen.add((case['ext'], kind, repr(case.get('opts', case.get('spelling', case.get('items')))), case['doc']))
             else: dist['empty_ref'] += 1
         if kind == 'forms' and case['opts']:
             dist['forms_with_options'] += 1
             if dflt is not None and dflt != ref: dist['option_sensitive'] += 1
         if bad and len(viol) < 30:
-            viol.append({'input': case, 'config': {'extension': case['ext'], 'options': case.get('opts', {case.get('key'): case.get('spelling')})},
+            viol.append({'input': case, 'config': {'extension': case['ext'], 'options': case.get('opts', case.get('items', {case.get('key'): case.get('spelling')}))},
                          'observed': bad[0][:2500], 'required': bad[1][:2500], 'finding': None})
         elif not bad and len(samples) < 4 and rng.random() < 0.05:
             samples.append(case)
